@@ -252,8 +252,11 @@ def check(run: Run) -> None:
             tv = ast.unparse(b.slice)
     run.check(first.node.returns is not None and ast.unparse(first.node.returns) == tv, "C08.R3", first, first.node, "First returns the collection's own type variable", f"First is annotated -> {ast.unparse(first.node.returns) if first.node.returns else None}, the class is parameterised by {tv}")
     run.check(count.node.returns is not None and ast.unparse(count.node.returns) == "int", "C08.R3", count, count.node, "Count returns int", "Count is not annotated -> int")
-    ld = m.find_func("_load_default_global_functions", in_module=mod)
-    my_len = [f for f in m.funcs.values() if f.parent_func is ld and f.name == "my_len"]
+    from ..lib import view as _view_ld
+
+    ld0 = m.find_func("_load_default_global_functions", in_module=mod)
+    ld = _view_ld(m, ld0)  # the registrations may be made by a loop over a local literal table of (name, function) pairs
+    my_len = [f for f in m.funcs.values() if f.parent_func is ld0 and f.name == "my_len"]
     ok = len(my_len) == 1 and my_len[0].node.returns is not None and ast.unparse(my_len[0].node.returns) == "int"
     reg = any(isinstance(n, ast.Assign) and isinstance(n.targets[0], ast.Subscript) and isinstance(n.targets[0].slice, ast.Constant) and n.targets[0].slice.value == "len" and "my_len" in ast.unparse(n.value) for n in own_nodes(ld))
     if not reg:
@@ -288,7 +291,15 @@ def check(run: Run) -> None:
 
     ty_c = tuple_component(rt, 1, 2)
     tys = unphi_terms(ty_c) if ty_c is not None else []
-    ok = ("global", "typing.Any") in tys and any(t[0] == "index" and t[2] == "return" and t[1][0] == "app" and t[1][1][1].endswith("get_type_hints") for t in tys) and len(tys) == 2
+    def _hint(t) -> bool:
+        # get_type_hints(func)["return"], or .get("return", <marker for absent>)
+        if t[0] == "index" and t[2] == "return" and t[1][0] == "app" and t[1][1][1].endswith("get_type_hints"):
+            return True
+        return t[0] == "app" and t[1][0] == "attr" and t[1][2] == "get" and t[1][1][0] == "app" and t[1][1][1][1].endswith("get_type_hints") and len(t[2]) >= 1 and t[2][0] == ("const", "return")
+
+    ok = ("global", "typing.Any") in tys and any(_hint(t) for t in tys) and len(tys) == 2
+    if not ok and len(tys) == 1 and _hint(tys[0]) and tys[0][0] == "app" and len(tys[0][2]) == 2 and tys[0][2][1] == ("global", "typing.Any"):
+        ok = True  # get_type_hints(func).get("return", Any)
     run.check(ok, "C08.R3", fd, fd.node, "declared return type is get_type_hints(func)['return'], Any when absent", f"the return type is {show(ty_c)[:120] if ty_c is not None else show(rt)[:120]}")
     # results
     frt = strip_sites(TermCtx(m, max_depth=1, opaque={"lookup_type"}).analysis(outer).return_term())
